@@ -150,7 +150,14 @@ def identify_twice(src, n=3):
     src.obs('nodes', {k: sorted(v) for k, v in core.mapper.nodes.items()})
 
 
+def _admission_gate():
+    from harness import c13
+    return c13.admission_gate
+
+
 HARNESSES = [
+    Harness('H04d', _admission_gate(), quick={}, thorough={}, reach=('admitted', 'not-admitted'), timeout=(30, 60),
+            doc="enable / disable events are taken into account from a CHECKED or RUNNING sender: the 'has it enabled' knowledge is not stale when the instance becomes RUNNING (scenario shared with C13 H13d)"),
     Harness('H04a', choice, quick={'n': 2, 'mode': 'eligible'}, thorough={'n': 3, 'mode': 'eligible'},
             reach=('chosen', 'none'), timeout=(100, 1500),
             doc='real get_supvisors_instance: result is None or eligible; None iff nobody is eligible'),
